@@ -143,6 +143,17 @@ def oracle_fsc(ck, rng):
         df2 = ld.fsc(mask=mask, seed=seed, n_set=nset, dfreq=1.5 / 6)
         fails = []
         if not np.allclose(df.to_numpy(), df2.to_numpy(), equal_nan=True): fails.append("not reproducible for a given seed / default dfreq")
+        # a requested shell width (and the documented default of 0.05) is the one used by every entry point
+        for dq_ in (0.1, 0.05, 0.17):
+            a_ = ld.fsc_with_halfmaps(mask=mask, seed=seed, n_set=nset, dfreq=dq_, squeeze=False)[0]
+            b_ = ld.fsc(mask=mask, seed=seed, n_set=nset, dfreq=dq_) if dq_ != 0.05 else ld.fsc(mask=mask, seed=seed, n_set=nset)
+            c_ = ld.fsc_with_average(mask=mask, seed=seed, n_set=nset, dfreq=dq_)[0]
+            hs_ = ld.average_split(n_set=nset, seed=seed, squeeze=False); hs_ = hs_ - hs_.mean()
+            fq_, f_ = fscf(hs_[0, 0] * (1.0 if mask is None else mask), hs_[0, 1] * (1.0 if mask is None else mask), dq_)
+            if a_.shape != b_.shape or a_.shape != c_.shape or not np.allclose(a_.to_numpy(), b_.to_numpy(), equal_nan=True) or not np.allclose(a_.to_numpy(), c_.to_numpy(), equal_nan=True):
+                fails.append(f"fsc / fsc_with_average / fsc_with_halfmaps with dfreq={dq_} report different curves (shapes {a_.shape}, {b_.shape}, {c_.shape})")
+            elif len(a_) != len(fq_) or not np.allclose(a_["freq"].to_numpy(), fq_, atol=1e-6) or not np.allclose(a_["FSC-0"].to_numpy(), f_, atol=1e-4, equal_nan=True):
+                fails.append(f"dfreq={dq_}: the reported shells are not those of the requested width")
         hs = ld.average_split(n_set=nset, seed=seed, squeeze=False)
         hs = hs - hs.mean()
         mm = 1.0 if mask is None else mask
@@ -307,8 +318,9 @@ def oracle_alignment_fsc(ck, rng):
             ck.oracle_count("alignment_fsc_laws", 1, 1)
             fails = []
             try:
-                sxy = float(FSCAlignment(x).score(y, q, p0)); syx = float(FSCAlignment(y).score(x, q, p0))
-                sxx = float(FSCAlignment(x).score(x, q, p0)); sg = float(FSCAlignment(x).score((3.5 * y).astype(np.float32), q, p0))
+                kwt = {"tilt": (-60.0, 50.0)} if (it % 2 and name == "noise vs noise") else {}
+                sxy = float(FSCAlignment(x, **kwt).score(y, q, p0)); syx = float(FSCAlignment(y, **kwt).score(x, q, p0))
+                sxx = float(FSCAlignment(x, **kwt).score(x, q, p0)); sg = float(FSCAlignment(x, **kwt).score((3.5 * y).astype(np.float32), q, p0))
                 for nm_, v in (("score(x, y)", sxy), ("score(y, x)", syx)):
                     if not np.isfinite(v) or abs(v) > 1 + 1e-5:
                         fails.append(f"{nm_} = {v} is not a finite number in [-1, 1]")
